@@ -326,13 +326,28 @@ class _ScriptedShare(object):
     __str__ = __repr__
 
 
+_TIMERS = []
+
+
 class _FReactor(object):
+    """timers never fire by themselves; the harness fires the overdue timers of the slow servers explicitly"""
     class _T(object):
+        def __init__(self, f, a, kw):
+            self.f, self.a, self.kw = f, a, kw
+            self.cancelled = False
+            self.fired = False
+
         def cancel(self):
-            pass
+            self.cancelled = True
+
+        def fire(self):
+            self.fired = True
+            self.f(*self.a, **self.kw)
 
     def callLater(self, t, f, *a, **kw):
-        return self._T()
+        tm = self._T(f, a, kw)
+        _TIMERS.append(tm)
+        return tm
 
 
 FI.Share = _ScriptedShare
@@ -340,9 +355,11 @@ FI.reactor = _FReactor()
 
 
 class _DServer(object):
-    def __init__(self, sid, answer):
+    def __init__(self, sid, answer, late=False):
         self.sid = sid
         self.answer = answer          # None = error, else list of share numbers
+        self.late = late              # the answer arrives only after the finder's overdue timer for the query has fired
+        self.pending = None
 
     def get_name(self):
         return "srv%d" % self.sid
@@ -351,9 +368,19 @@ class _DServer(object):
         return self
 
     def get_buckets(self, si):
+        if self.late:
+            self.pending = defer.Deferred()
+            return self.pending
         if self.answer is None:
             return defer.fail(RuntimeError("server unreachable"))
         return defer.succeed(dict((s, object()) for s in self.answer))
+
+    def answer_now(self):
+        d, self.pending = self.pending, None
+        if self.answer is None:
+            d.errback(Failure(RuntimeError("server unreachable")))
+        else:
+            d.callback(dict((s, object()) for s in self.answer))
 
 
 class _DEv(object):
@@ -377,11 +404,13 @@ class _DBroker(object):
         return list(self.servers)
 
 
-def _read_check(k, answers, fates, lifo, second):
-    """answers[i]: None (error) or list of share numbers on server i; fates[i][shnum] for each held share."""
+def _read_check(k, answers, fates, lifo, second, late=()):
+    """answers[i]: None (error) or list of share numbers on server i; fates[i][shnum] for each held share;
+    late[i]: server i's answer to the share query arrives after the finder's overdue timer for it fired."""
     del _QUEUE[:]
     del _OUTSTANDING[:]
-    servers = [_DServer(i, answers[i]) for i in range(len(answers))]
+    del _TIMERS[:]
+    servers = [_DServer(i, answers[i], bool(late[i]) if i < len(late) else False) for i in range(len(answers))]
     _ScriptedShare.fates = {}
     for i, a in enumerate(answers):
         for s in (a or []):
@@ -393,10 +422,8 @@ def _read_check(k, answers, fates, lifo, second):
     seen_blocks = []
     nd._decode_blocks = lambda segnum, blocks: (seen_blocks.append(dict(blocks)), defer.succeed((b"segment-%d" % segnum, 0.0)))[1]
 
-    def run_one():
-        (d, c) = nd.get_segment(0)
-        res = []
-        d.addBoth(res.append)
+    def quiesce():
+        """drain the eventual-send queue and finish outstanding block requests until nothing is left to do"""
         steps = 0
         while True:
             n = 0
@@ -405,10 +432,10 @@ def _read_check(k, answers, fates, lifo, second):
                 f(*a, **kw)
                 n += 1
                 if n > 400:
-                    return res, "eventual-send queue does not drain (livelock)"
+                    return "eventual-send queue does not drain (livelock)"
             live = [o for o in _OUTSTANDING if not o.done and not o.cancelled]
             if not live:
-                return res, None
+                return None
             o = live[-1] if lifo else live[0]
             fate = o.share.fate
             if fate in (LATE_GOOD, LATE_DEAD) and not o.announced_overdue:
@@ -424,7 +451,34 @@ def _read_check(k, answers, fates, lifo, second):
                     o.notify(state=DEAD, f=Failure(RuntimeError("share died")))
             steps += 1
             if steps > 200:
-                return res, "share notifications never end"
+                return "share notifications never end"
+
+    def run_one():
+        (d, c) = nd.get_segment(0)
+        res = []
+        d.addBoth(res.append)
+        rounds = 0
+        while True:
+            err = quiesce()
+            if err:
+                return res, err
+            slow = [srv for srv in servers if srv.pending is not None]
+            if not slow:
+                return res, None
+            # the queries to the slow servers are still in flight: first their overdue timers fire ...
+            for tm in list(_TIMERS):
+                if not tm.cancelled and not tm.fired:
+                    tm.fire()
+            err = quiesce()
+            if err:
+                return res, err
+            # ... then one of the late answers arrives
+            slow = [srv for srv in servers if srv.pending is not None]
+            if slow:
+                slow[0].answer_now()
+            rounds += 1
+            if rounds > 20:
+                return res, "late answers never end"
 
     good_nums = set(s for (i, s), f in _ScriptedShare.fates.items() if f in (GOOD, LATE_GOOD))
     any_share = bool(_ScriptedShare.fates)
@@ -459,14 +513,27 @@ def _read_check(k, answers, fates, lifo, second):
 ANSWERS = [None, [], [0], [1], [0, 1]]
 
 
+def _late_ok(l0, l1, l2, lifo, second):
+    """bound LATE: 0/None = every server answers promptly; 1 = at least one server answers its share query only after the
+    finder's overdue timer fired (then the notification order / second-read dimensions are pinned to keep the case small)."""
+    nsrv = B.get("NSRV", 2)
+    if nsrv < 3 and l2:
+        return False
+    if not B.get("LATE"):
+        return not (l0 or l1 or l2)
+    return (l0 or l1 or l2) and not lifo and not second
+
+
 def h_read(k: int, a0: int, a1: int, a2: int, f00: int, f01: int, f10: int, f11: int, f20: int, f21: int,
-           lifo: bool, second: bool) -> bool:
+           lifo: bool, second: bool, late0: bool = False, late1: bool = False, late2: bool = False) -> bool:
     """
+    pre: _late_ok(late0, late1, late2, lifo, second)
     pre: 1 <= k <= 2 and 0 <= a0 < 5 and 0 <= a1 < 5 and 0 <= a2 < 5
     pre: B.get("NSRV", 2) > 2 or a2 == 1
     pre: 0 <= f00 < B.get("NF", 5) and 0 <= f01 < B.get("NF", 5) and 0 <= f10 < B.get("NF", 5) and 0 <= f11 < B.get("NF", 5) and 0 <= f20 < B.get("NF", 5) and 0 <= f21 < B.get("NF", 5)
     pre: B.get("k") is None or k == B.get("k")
     pre: B.get("a0") is None or a0 == B.get("a0")
+    pre: B.get("a0both") is None or (a0 == 4) == bool(B.get("a0both"))
     post: _ == True
     """
     nsrv = int(B.get("NSRV", 2))
@@ -489,4 +556,5 @@ def h_read(k: int, a0: int, a1: int, a2: int, f00: int, f01: int, f10: int, f11:
         assume(fs[i][0] == 0 and fs[i][1] == 0)
     lf = True if lifo else False
     sec = True if second else False
-    return M.run_concrete(_read_check, kk, answers, fates, lf, sec)
+    lates = [True if x else False for x in (late0, late1, late2)][:nsrv]
+    return M.run_concrete(_read_check, kk, answers, fates, lf, sec, lates)
